@@ -97,15 +97,21 @@ func handle(db *redka.DB) redcon.HandlerFunc {
 // handleMulti processes a batch of commands in a transaction.
 func handleMulti(conn redcon.Conn, state *connState, db *redka.DB) {
 	err := db.Update(func(tx *redka.Tx) error {
+		// EXEC has already announced one reply per queued command, so every
+		// command runs and writes its reply even after one of them has failed.
+		// The first error is returned at the end to roll the transaction back.
+		var failed error
 		for _, pcmd := range state.cmds {
 			_, err := pcmd.Run(conn, redis.RedkaTx(tx))
 			if err != nil {
 				slog.Warn("run multi command", "client", conn.RemoteAddr(),
 					"name", pcmd.Name(), "err", err)
-				return err
+				if failed == nil {
+					failed = err
+				}
 			}
 		}
-		return nil
+		return failed
 	})
 	if err != nil {
 		slog.Warn("run multi", "client", conn.RemoteAddr(), "err", err)
